@@ -147,7 +147,10 @@ def run(ctx):
             hi = C.dyadic(rng, 0.5, 8, 6)
         atol = rng.choice([1e-4, 1e-4, 1e-6, 1e-2, 1e-9])
         rtol = rng.choice([1e-4, 1e-4, 1e-6, 1e-2, 1e-9])
-        maxit = rng.choice([1, 2, 3, 4, 5, 6, 7, 9, 10, 20, 100, 100])
+        if rng.random() < 0.25:
+            # relative test decisive and coarse: which iterate scales the difference becomes visible
+            atol = 1.0; rtol = rng.choice([0.05, 0.01, 0.1])
+        maxit = rng.choice([1, 2, 3, 5, 7, 10, 20, 20, 100, 100, 100])
         ait = rng.random() < 0.75
         form = rng.choice(["ndarray", "dataarray"])
         cases.append({"op": "fp", "form": form, "ids": ids, "a": [C.fx(v) for v in aa], "guess": [C.fx(v) for v in gg],
